@@ -22,7 +22,7 @@ import (
 
 func TestMain(m *testing.M) {
 	time.Local = time.UTC
-	ev.Describe("per public type with a JSON form (date, date-time, HH:mm, PIN, card, time profile, weekdays, segments, task, task type, control state, version, MAC, bind/broadcast/listen/controller address): rapid-drawn in-domain values are marshalled and decoded into a FRESH zero-valued variable (nil maps), and compared under the type's observable equality (civil fields; same instant when the civil time is unambiguous; doors 1..4; weekday truth values); date and date-time cases are repeated under a spread of 40 zones (quick) / every zone (thorough). Reject side, exactly the listed classes: impossible dates and date-times, 24:01/23:60/25:00, PINs of 7+ digits, unknown control states, task types 0/14/unknown, addresses breaking the role's port rule - each must give an error and never a value. Text forms: String() fed back to ParseDate, HHmmFromString, TimeFromString, UnmarshalTSV (names and 1..13), CardFormatFromString. Non-trivial = value different from the type's zero, or a reject case; distinct = distinct (type, zone, value/text).",
+	ev.Describe("malformed input: for every type with a text or JSON parser - valid texts with 1..3 character-level mutations (hostile inserts incl. NUL, non-ASCII digits, separators replaced, truncation), arbitrary strings, JSON values of another shape, and for the structured types (card, time profile, task, weekdays, segments) a valid document with one leaf replaced by another shape or a mutated text: the parser must not panic, and a text without any digit or letter must be rejected; per public type with a JSON form (date, date-time, HH:mm, PIN, card, time profile, weekdays, segments, task, task type, control state, version, MAC, bind/broadcast/listen/controller address): rapid-drawn in-domain values are marshalled and decoded into a FRESH zero-valued variable (nil maps), and compared under the type's observable equality (civil fields; same instant when the civil time is unambiguous; doors 1..4; weekday truth values); date and date-time cases are repeated under a spread of 40 zones (quick) / every zone (thorough). Reject side, exactly the listed classes: impossible dates and date-times, 24:01/23:60/25:00, PINs of 7+ digits, unknown control states, task types 0/14/unknown, addresses breaking the role's port rule - each must give an error and never a value. Text forms: String() fed back to ParseDate, HHmmFromString, TimeFromString, UnmarshalTSV (names and 1..13), CardFormatFromString. Non-trivial = value different from the type's zero, or a reject case; distinct = distinct (type, zone, value/text).",
 		"cards are generated with valid (non-zero) dates and door keys 1..4 or a nil map; profiles with all three segments (the in-domain side of the statement)",
 		"time.Local is switched in-process")
 	ev.Main(m, "C14")
@@ -799,5 +799,5 @@ func props() []rp.Prop {
 	return []rp.Prop{rp.P[jCase]{Name: "json", Checks: ev.Pick(60000, 15000000) / ev.Shards(), Gen: genCase, Sweep: sweep, Check: check}}
 }
 
-func TestC14(t *testing.T)    { rp.RunAll(t, props()...) }
-func TestReplay(t *testing.T) { rp.ReplayAll(t, props()...) }
+func TestC14(t *testing.T)    { rp.RunAll(t, append(props(), badProps()...)...) }
+func TestReplay(t *testing.T) { rp.ReplayAll(t, append(props(), badProps()...)...) }
